@@ -27,7 +27,35 @@ type verifRedisConn struct{ f *verifRedis }
 func (c *verifRedisConn) Info() (*redis.Info, error) {
 	return &redis.Info{Version: "6.2.0", Loading: c.f.loading, MasterLinkStatus: c.f.link}, nil
 }
-func (c *verifRedisConn) Do(cmd string, args ...interface{}) (interface{}, error) { return nil, nil }
+func (c *verifRedisConn) Do(cmd string, args ...interface{}) (interface{}, error) {
+	if cmd == "PING" {
+		return "PONG", nil
+	}
+	return nil, nil
+}
+
+// ---- health probes of the pool monitor (model only) ----
+
+// VerifProbeDown lists the nodes whose health probe (Pool.detect: dial + PING) currently fails.
+var VerifProbeDown = map[string]bool{}
+
+// VerifProbeDial stands in for redis.Dial inside Pool.detect (job-level redirect in the symbolic run).
+func VerifProbeDial(address, passwd string, options ...redis.DialOption) (redis.Conn, error) {
+	if VerifProbeDown[address] {
+		return nil, verifErrDial
+	}
+	return &verifRedisConn{&verifRedis{link: "up"}}, nil
+}
+
+// VerifRunMonitor lets the health-monitor goroutine of a node's pool handle `ticks` ticks of its 5 s
+// ticker and reports whether it is still running afterwards (parked, waiting for the next tick).
+// Every iteration of the monitor's loop starts from the same state (the loop keeps nothing but the
+// ticker), so a second call continues a monitor that the first call left running.
+func VerifRunMonitor(addr string, ticks int) bool {
+	p := EngineGlobal.ProxyPool[addr]
+	verifrt.SetTicks(ticks)
+	return verifrt.RunUntilBlocked(p.monitor)
+}
 func (c *verifRedisConn) Send(cmd string, args ...interface{}) error              { return nil }
 func (c *verifRedisConn) Flush() error                                            { return nil }
 func (c *verifRedisConn) Receive() (interface{}, error)                           { return nil, nil }
